@@ -8,6 +8,7 @@ vlib.register_const_dump('kernel', 'device/video/console', os.path.join(H, 'zz_v
 vlib.register_const_dump('kernel', 'device/tty', os.path.join(vlib.ROOT, 'harness/kernel/device/tty/zz_verif_consts_test.go'))
 import gen_trans
 gen_trans.register('console_vga.json')   # Go -> Gallina translation of VgaTextConsole (used by Console/VgaTrans.v)
+gen_trans.register('console_vesa.json')  # Go -> Gallina translation of VesaFbConsole (used by Console/VesaTrans.v)
 
 M32 = (1 << 32) - 1
 
@@ -190,7 +191,8 @@ def gen_vesa(rng):
 class C19(flow.Spec):
     prop = 'C19'
     props_files = ['theories/Props/C19.v', 'theories/Props/C19_examples.v',
-                   'theories/Props/C19_vga_trans.v', 'theories/Props/C19_vga_trans_examples.v']
+                   'theories/Props/C19_vga_trans.v', 'theories/Props/C19_vga_trans_examples.v',
+                   'theories/Props/C19_vesa_trans.v', 'theories/Props/C19_vesa_trans_examples.v']
     model_targets = ['theories/Console/Run.vo']
     pkg = 'device/video/console'
     harness = [os.path.join(H, 'zz_verif_c19_test.go'), os.path.join(H, 'zz_verif_c19_vesa_test.go'), os.path.join(H, 'zz_verif_consts_test.go')]
